@@ -55,6 +55,19 @@ type GW1 struct {
 	B uint8
 	C *uint64
 }
+type GS8 struct {
+	A int64
+	B GL1            // optional, bound to a slice: nil means absent
+	C datamodel.Link // optional, bound to an interface: nil means absent
+}
+type GM3 struct {
+	Keys   []string
+	Values map[string]uint64
+}
+type GU5 struct {
+	U64    *uint64
+	String *string
+}
 type GL1 []int64
 type GL2 []*string
 type GM1 struct {
@@ -108,7 +121,8 @@ var BindLib = map[string]func() interface{}{
 	"T0": func() interface{} { return new(GR10) }, "T1": func() interface{} { return new(GR11) },
 	"T3": func() interface{} { return new(GR13) }, "R5": func() interface{} { return new(GR5) },
 	"R7": func() interface{} { return new(GR7) }, "R2": func() interface{} { return new(GR2) },
-	"W1": func() interface{} { return new(GW1) },
+	"W1": func() interface{} { return new(GW1) }, "S8": func() interface{} { return new(GS8) },
+	"M3": func() interface{} { return new(GM3) }, "U5": func() interface{} { return new(GU5) },
 }
 
 func goFieldName(s string) string { return strings.ToUpper(s[:1]) + s[1:] }
@@ -138,6 +152,12 @@ func setTyped(dst reflect.Value, T *TyAST, tv model.Value) error {
 		dst.SetString(string(model.Bytes(tv.A)))
 	case "bool":
 		dst.SetBool(len(tv.A) > 0 && tv.A[0] != 0)
+	case "link":
+		g, err := (model.Conc{}).Scalar(tv)
+		if err != nil {
+			return err
+		}
+		dst.Set(reflect.ValueOf(g.L))
 	case "list":
 		sl := reflect.MakeSlice(dst.Type(), len(tv.Vs), len(tv.Vs))
 		for i, ev := range tv.Vs {
